@@ -33,10 +33,34 @@ def units(tier):
         us.append(lemma_unit(f"prefix.determinism.chunk{c}", (lambda c=c: prefix.all_obligations(c, 16))))
     us.append(lemma_unit("prefix.leaf_axioms_on_leaf_spec", prefix.leaf_axiom_checks))
     us.append(lemma_unit("prefix.truncation_corollary", prefix.corollary))
+    # "the fields, repeat counts and masks it announces" are those of the standard's layout: the definition tables are compared with
+    # the pinned length formulas (fixed part + per-counter terms), so a table that requires fewer bits than the message announces
+    # (a group repeated on the wrong counter, a dropped field) fails here
+    from spec import tablecheck
+    us.append(ground_unit("tables.WF", tablecheck.wf_lemmas))
+    us.append(ground_unit("tables.lengths", tablecheck.length_lemmas))
+    us.append(ground_unit("tables.siblings", tablecheck.sibling_lemmas))
     return us
 
 
 def replay(o, seed):
+    if o["name"].startswith("tables."):
+        # a table that disagrees with the pinned layout: look for a payload the real decoder accepts although it is shorter than
+        # the standard's length formula requires for the counters it carries
+        from props.common import try_candidates
+        from props.replays import message_candidates
+        import re
+        m = re.search(r"\[([0-9_]+)\]", o["name"])
+        focus = (lambda ident: ident == m.group(1)) if m else None
+        cands = [c for c in message_candidates(o, seed, focus=focus) if "labelmsm" in c]
+        for k in range(1, 6):
+            cands += [c for c in message_candidates(o, seed + 100 * k, focus=focus) if "labelmsm" in c]
+        r = try_candidates("announced_length", iter(cands), key=lambda i, r: "announced-length")
+        if r.get("reproduced"):
+            r["key"] = o["name"]
+            return r
+        from props import C10
+        return C10.replay(o, seed)
     return generic_replay(o, seed)
 
 
@@ -73,4 +97,16 @@ def bounded(tier, seed, results):
                    "replay_spec": "truncation_rejected", "input": res.get("input"), "expected": res.get("expected"), "observed": res.get("observed")},
                   open(path, "w"), indent=1, default=str)
         out.update({"violation": True, "replay": os.path.relpath(path, chk.OUT), "key": "truncation"})
-    return [out]
+    # the same inputs against the pinned length formulas: nothing accepted may be shorter than its own counters announce
+    res2 = chk.run_replay_batch("announced_length", inputs)
+    out2 = {"name": "C06.accepted_payloads_cover_announced_length", "kind": "bounded", "bound": out["bound"] + "; requirement from spec/pinned.py",
+            "evaluations": len(inputs), "violation": False}
+    if res2.get("fails"):
+        import json
+        os.makedirs(os.path.join(chk.OUT, "replays", "C06"), exist_ok=True)
+        path = os.path.join(chk.OUT, "replays", "C06", "announced-length-bounded.json")
+        json.dump({"property": "C06", "obligation": "C06.accepted_payloads_cover_announced_length (bounded stand-in)", "reproduced_on_real_code": True,
+                   "replay_spec": "announced_length", "input": res2.get("input"), "expected": res2.get("expected"), "observed": res2.get("observed")},
+                  open(path, "w"), indent=1, default=str)
+        out2.update({"violation": True, "replay": os.path.relpath(path, chk.OUT), "key": "announced-length"})
+    return [out, out2]
